@@ -7,7 +7,8 @@ Check C18_shape : forall (d rest : path),
 Check C18_no_overwrite : forall (sl : bool) (src tgt : path) (rn : bool) (now : Z) (s : fs),
   names s (norm tgt) <> None ->
   forall (o : oracle) (i : nat),
-    let r := run o i (prog_of sl (FMove src tgt rn now)) s in ofs r = s /\ ores r = IErr /\ owarn r = 0%nat.
+    (forall st, In st (states o i (prog_of sl (FMove src tgt rn now)) s) -> dirs_added s st) /\
+    let r := run o i (prog_of sl (FMove src tgt rn now)) s in dirs_added s (ofs r) /\ ores r = IErr /\ owarn r = 0%nat.
 Check C18_copy_then_delete : forall (sl : bool) (src tgt : path) (rn : bool) (now : Z) (s : fs) (o : oracle) (i : nat) (st : fs),
   pre (FMove src tgt rn now) s ->
   In st (states o i (prog_of sl (FMove src tgt rn now)) s) ->
